@@ -23,6 +23,7 @@ type emitter struct {
 	shard int
 	meta  *vh.Meta
 	limit int
+	bad   int // cases with a hang / panic so far: after three the run stops generating (each costs 5 s)
 }
 
 func (e *emitter) flush() {
@@ -214,6 +215,7 @@ func (e *emitter) add(cs *Case, steps []*stepRec, obs *Obs) {
 	}
 	if obs.Bad != "" {
 		e.meta.Hist("bad")
+		e.bad++
 	}
 	if e.cf.Len() >= e.limit {
 		e.flush()
@@ -374,7 +376,7 @@ func (e *emitter) dfs(family string, base *Case, maxLeaves int) (int, bool) {
 	stack := []frame{{}}
 	leaves := 0
 	for len(stack) > 0 {
-		if leaves >= maxLeaves {
+		if leaves >= maxLeaves || e.bad >= 3 {
 			return leaves, false
 		}
 		f := stack[len(stack)-1]
@@ -502,19 +504,19 @@ func main() {
 	}
 	meta.Extra["S_dfs"] = dfsInfo
 
-	for i := 0; i < nS; i++ {
+	for i := 0; i < nS && e.bad < 3; i++ {
 		rr := r.Fork()
 		cs := genCase(rr, "S", false, 4)
 		cs.Family = "S-random"
 		e.execute(cs, randomDecide(rr))
 	}
-	for i := 0; i < nShared; i++ {
+	for i := 0; i < nShared && e.bad < 3; i++ {
 		rr := r.Fork()
 		cs := genCase(rr, "S", true, 4)
 		cs.Family = "S-random-shared-target"
 		e.execute(cs, randomDecide(rr))
 	}
-	for i := 0; i < nA; i++ {
+	for i := 0; i < nA && e.bad < 3; i++ {
 		rr := r.Fork()
 		cs := genCase(rr, "A", i%4 == 3, 8)
 		cs.Family = "A-free"
